@@ -73,10 +73,10 @@ CHECKS.append(
     dict(id="C08", level="other", engine="E1+E2+E3",
          text="Validator languages include every token the back-ends can certainly deliver (DFA inclusion over all strings); "
               "panic audit of everything reachable from the parser adapters (auto-discharge rules + exact-key audited table, "
-              "fail closed); accessor/kind consistency of all 32 Term impls; who-may-construct ArcBnode. Decides the "
+              "fail closed); accessor/kind consistency of all 32 Term impls; who-may-construct ArcBnode; every `map_unchecked` of a wrapper is a conversion of the wrapped string or an audited unchecked construction; the JSON-LD adapter hands its configured IRIs to iref before the processor starts and validates json-ld's language tags before a quad is delivered (R8.9, R8.10: use-only-after-successful-check rules). Decides the "
               "workspace's own adapter code, not termination or panics inside rio/json-ld.",
          note="Trusted: the pinned back-ends emit tokens of their normative grammars (A8) except where refuted; rustc MIR; regex engines; "
-              "the audited table with one reason per entry. Known findings: four unchecked constructions resting on a back-end guarantee that a reproduction refuted (rio blank node labels; rio IRIs: rio_xml namespace concatenation, rio_turtle prefixed-name concatenation, GTriG without a base; the same in datatype position; iref IRIs): they panic in debug builds.",
+              "the audited table with one reason per entry. Known findings: four unchecked constructions resting on a back-end guarantee that a reproduction refuted (rio blank node labels; rio IRIs: rio_xml namespace concatenation, rio_turtle prefixed-name concatenation, GTriG without a base; the same in datatype position; iref IRIs incl. bracketed hosts that are no IPv6 addresses): they panic in debug builds.",
          technique="static: DFA language inclusion + MIR panic-site enumeration with dominator-based discharge + call-graph reachability"))
 CHECKS.append(
     dict(id="C15", level="other", engine="E1+E3",
